@@ -135,6 +135,11 @@ func (e *Exec) externalEnv(fr *Frame, st State, fn *ssa.Function, args []Val, po
 		err := e.freshVal(fn.Signature.Results().At(2).Type(), "readerr")
 		st = st.assume(c.Imp(c.Eq(err[0], c.Const(64, 0)), c.And(c.Eq(err[1], c.Const(64, 0)), c.Ne(addr[0], c.Const(64, 0)))))
 		st = e.ghostInc(st, "ndatagram")
+		{
+			// nreaderr counts the reads that failed (the only legitimate reason for a UDP worker to end)
+			k := e.ghost(st, "nreaderr", BV(64))
+			st = st.setGhost("nreaderr", c.Ite(c.Eq(err[0], c.Const(64, 0)), k, c.Add(k, c.Const(64, 1))))
+		}
 		e.assumed["assumed contract: (*net.UDPConn).ReadFromUDP returns 0 <= n <= len(b) and a non-nil sender on success"] = true
 		return []Outcome{{st: st, ret: Val{n, addr[0], err[0], err[1]}}}, true
 	case "net.SplitHostPort":
@@ -182,7 +187,9 @@ func (e *Exec) externalEnv(fr *Frame, st State, fn *ssa.Function, args []Val, po
 		s2, a := e.alloc(st, n, "peek")
 		arr := c.Fresh("peeked", Sort{KArr, 8})
 		s2.h[0] = s2.h[0].push(HeapLayer{kind: lHavoc, addr: a, n: n, arr: arr})
+		s2 = s2.setGhost("peek.base", a)
 		s3, ev := e.freshError(st, "peek")
+		s3 = e.ghostInc(s3, "nreaderr")
 		e.assumed["assumed contract: bufio.Reader.Peek / io.ReadFull behave as a byte stream (ghost position stream.pos)"] = true
 		return []Outcome{
 			{st: s2.branch(c.Fresh("peek.ok", Bool)), ret: Val{a, n, n, c.Const(64, 0), c.Const(64, 0)}},
@@ -201,6 +208,7 @@ func (e *Exec) externalEnv(fr *Frame, st State, fn *ssa.Function, args []Val, po
 		badS.h[0] = badS.h[0].push(HeapLayer{kind: lHavoc, addr: b[0], n: n, arr: arr2})
 		badS = badS.setGhost("stream.pos", c.Add(e.ghost(st, "stream.pos", BV(64)), n))
 		badS, ev := e.freshError(badS, "readfull")
+		badS = e.ghostInc(badS, "nreaderr")
 		return []Outcome{
 			{st: okS.branch(c.Fresh("readfull.ok", Bool)), ret: Val{b[1], c.Const(64, 0), c.Const(64, 0)}},
 			{st: badS, ret: Val{n, ev[0], ev[1]}},
@@ -338,6 +346,23 @@ func (e *Exec) socketInvoke(fr *Frame, st State, cc *ssa.CallCommon, recv Val, a
 		st = st.setGhost(gkey("lastsend", sock)+"#0", p[0])
 		st = st.setGhost(gkey("lastsend", sock)+"#1", p[1])
 		st = st.setGhost(gkey("sendclock", sock), e.ghost(st, "clock", BV(64)))
+		{
+			// sendbare: some frame left through this socket while no mutex known to this
+			// execution was held (C13: every routing indication goes out under the send lock)
+			held := []*Term{}
+			seen := map[string]bool{}
+			for g := st.ghost; g != nil; g = g.prev {
+				if seen[g.name] {
+					continue
+				}
+				seen[g.name] = true
+				if ghostKind(g.name) == "held" {
+					held = append(held, g.val)
+				}
+			}
+			bare := e.ghost(st, gkey("sendbare", sock), Bool)
+			st = st.setGhost(gkey("sendbare", sock), c.Or(bare, c.Not(c.Or(held...))))
+		}
 		st = e.ghostInc(st, "nsocksend")
 		st = e.oblige(st, fr.fn, "chan", "send-nonnil", pos, c.Ne(p[0], c.Const(64, 0)))
 		err := e.freshVal(cc.Signature().Results().At(0).Type(), "senderr")
@@ -475,7 +500,7 @@ func (e *Exec) ghost(st State, name string, sort Sort) *Term {
 }
 
 var counterKinds = map[string]bool{"nsend": true, "nsent": true, "nrecv": true, "nrecvc": true, "nclose": true, "nspawn": true,
-	"nsocksend": true, "nsockclose": true, "ndial": true, "ndialfail": true, "nwrite": true, "ndatagram": true, "nconnclose": true, "stream.pos": true, "llen": true, "lpush": true, "lpopfront": true, "lpopback": true, "nticker": true, "nafter": true, "nafterfunc": true, "ntickerstop": true, "wg": true, "nclosesock": true}
+	"nsocksend": true, "nsockclose": true, "ndial": true, "ndialfail": true, "nwrite": true, "ndatagram": true, "nconnclose": true, "stream.pos": true, "llen": true, "lpush": true, "lpopfront": true, "lpopback": true, "nticker": true, "nreaderr": true, "nafter": true, "nafterfunc": true, "ntickerstop": true, "wg": true, "nclosesock": true}
 
 // ghostOfFresh: the ghost variable belongs to an object created during this execution.
 func (e *Exec) ghostOfFresh(name string) bool {
@@ -506,7 +531,7 @@ func (e *Exec) ghostKeyOf(env *cenv, it ghostItem) string {
 	v := env.eval(it.Arg)
 	var t *Term
 	switch it.Kind {
-	case "nsend", "lastsend", "sendsame", "sendclock", "nclosesock":
+	case "nsend", "lastsend", "sendsame", "sendclock", "nclosesock", "sendbare":
 		t = v.v[1] // interface value: the socket object
 		if _, ok := v.T.Underlying().(*types.Interface); !ok {
 			t = v.v[0]
@@ -528,7 +553,8 @@ func expandGhostNames(names []string) []string {
 	out := append([]string{}, names...)
 	for _, k := range names {
 		if strings.HasPrefix(k, "nsend") {
-			out = append(out, "nsocksend")
+			// a function that may send may also change "sent without a lock" unless it says otherwise
+			out = append(out, "nsocksend", "sendbare"+k[len("nsend"):])
 		}
 		if strings.HasPrefix(k, "nrecv") && !strings.HasPrefix(k, "nrecvc") {
 			out = append(out, "nrecvc"+k[len("nrecv"):])
